@@ -910,7 +910,7 @@ func main() {
 	rng := vlib.NewRand(a.Seed)
 	np := 160
 	if a.Thorough() {
-		np = 2500
+		np = 1500
 	}
 	// fixed witnesses of DESIGN.md §6 first
 	for _, w := range []string{
